@@ -2,8 +2,8 @@
 from frontcheck import *
 
 PROP = "C11"
-THEOREMS = []
+THEOREMS = [tuple(x) for x in json.load(open(os.path.join(VERIF, "lib", "pins", PROP + ".json")))]
 
 
 def main(tier, seed, replay=None):
-    return front_check(PROP, THEOREMS, tier, seed, dict(includes=True, scoping=True), replay=replay)
+    return front_check(PROP, THEOREMS, tier, seed, extra_modules=["Model.All", "Proofs.EvalScope", "Proofs.EvalFiles", "Proofs.GraphDedup", "Proofs.GraphAddBuild", "Proofs.GraphLoad"], gen_kw=dict(includes=True, scoping=True), replay=replay)
